@@ -21,6 +21,12 @@ CHECKS = {
  "C13": ("mc_arith", "4/C13", "exhaustive enumeration of (base,exp), (value,base), (value,degree) at small widths and perfect-power neighbourhoods at wide widths vs integer-only reference (repeated multiplication, bisection), with a per-case termination watchdog",
          "pow/log/root families on all pairs at widths 0..8 (root: all values to 12/16 bits x all degrees), and on b^k+-1 neighbourhoods up to 1024 bits; non-termination is detected by a watchdog and reported as a violation.",
          "Same bounds as C01; watchdog horizon 20 s per case."),
+ "C05": ("mc_bits", "4/C05", "exhaustive enumeration of (value, amount) with EVERY amount in [0, BITS+64*LIMBS+1], all 10 primitive amount types x 4 operator shapes, and Uint-typed amounts of any magnitude, on the real code vs BigUint shifts",
+         "All shift/rotate methods and every operator overload are executed for every amount in the stated range on complete value universes (all values to 10/12 bits; limb-alphabet products, run shapes and 2^k+-1 at edge widths to 1024 bits) and compared with exact integer shifts including the lost-bit flags.",
+         "Decides the property for the enumerated universes; negative signed amounts are outside the property. Trusted: rustc/LLVM, num-bigint."),
+ "C06": ("mc_bits", "4/C06", "exhaustive enumeration of values (all 2^B for B<=16), all pairs for binary logic, and every index in [0,BITS+64] for accessors, vs the BigUint binary expansion",
+         "Every bit-level entry point is compared with the binary expansion on complete universes, indices beyond the width included (false / None / no write / panic as documented).",
+         "Same bounds as C05."),
 }
 
 NOT_YET = {}
